@@ -20,6 +20,20 @@ OPERATORS = collections.defaultdict(lambda: not_implemented)
 
 numeric_wrap = functools.partial(wrap_ufunc)
 
+
+def xpow(x, y):
+    if x == 0:
+        if y == 0:
+            return Error.errors['#NUM!']
+        if y < 0:
+            return Error.errors['#DIV/0!']
+    try:
+        r = x ** y
+    except OverflowError:
+        return Error.errors['#NUM!']
+    return Error.errors['#NUM!'] if isinstance(r, complex) else r
+
+
 # noinspection PyTypeChecker
 OPERATORS.update({k: numeric_wrap(v) for k, v in {
     '+': lambda x, y: x + y,
@@ -27,7 +41,7 @@ OPERATORS.update({k: numeric_wrap(v) for k, v in {
     'U-': lambda x: -x,
     '*': lambda x, y: x * y,
     '/': lambda x, y: (x / y) if y else Error.errors['#DIV/0!'],
-    '^': lambda x, y: x ** y,
+    '^': xpow,
     '%': lambda x: x / 100.0,
 }.items()})
 OPERATORS['U+'] = wrap_ufunc(
